@@ -186,7 +186,24 @@ def run_life(case):
                         aborted = True
                         break
                 else:
+                    if at.get('close_in_cb'):
+                        # the application closes the link from inside a notification (dispatcher thread: no race involved)
+                        ev_caller = getattr(cf, at['close_in_cb'])
+                        fired = []
+
+                        def closer(*a_):
+                            if not fired:
+                                fired.append(1)
+                                closes[0] += 1
+                                cf.close_link()
+                        ev_caller.add_callback(closer)
                     cf.open_link('sim://1')
+                    if at.get('close_in_cb'):
+                        s.sleep(5.0)
+                        try:
+                            ev_caller.remove_callback(closer)
+                        except ValueError:
+                            pass
                     if at.get('close_at') is not None:
                         s.sleep(at['close_at'])
                         if not (at.get('late_close') and cf.link is None):
@@ -282,7 +299,8 @@ _sched = st.fixed_dictionaries({'prefix': st.lists(st.integers(0, 3), max_size=4
 _attempt = st.fixed_dictionaries({
     'fault': st.one_of(st.none(), st.fixed_dictionaries({'k': st.integers(1, 90), 'reporter': st.sampled_from(['driver', 'sender', 'driver-quiet'])})),
     'close_at': st.one_of(st.none(), st.none(), st.sampled_from([0.0, 0.0005, 0.002, 0.005, 0.01, 0.02, 0.05, 0.3, 2.0])),
-    'sync': st.booleans()})
+    'sync': st.booleans(),
+    'close_in_cb': st.sampled_from([None, None, None, None, 'link_established', 'connected', 'fully_connected'])})
 
 
 @st.composite
